@@ -6,6 +6,9 @@ use proptest::prelude::*;
 /// markup-significant bytes
 pub const SIGMA1: &[u8] = b"<>/!?-[]'\" a=";
 
+/// second byte alphabet: name ends at TAB/LF as well as SP, `<?xml` + blank classification
+pub const SIGMA2: &[u8] = b"<>/?xml\t\n '=";
+
 /// token alphabet: reaches CDATA / DOCTYPE / declarations, which byte enumeration cannot at
 /// small lengths
 pub const TOKENS: &[&[u8]] = &[
